@@ -680,8 +680,9 @@ class NetCDFWrite(IOWrite):
             ncvar = self._create_netcdf_variable_name(coord, default=None)
             if ncvar is None:
                 # No netCDF variable name has been set, so use the
-                # corresponding netCDF dimension name
-                ncvar = ncdim
+                # corresponding netCDF dimension name, made unique
+                # in the dataset like any other name
+                ncvar = self._netcdf_name(ncdim)
 
             if ncvar is None:
                 # No netCDF variable name not correponding to a netCDF
